@@ -163,6 +163,91 @@ def model_check(scratch, ck, dev):
     ck.coverage["transitions"] = gen
 
 
+LAYERED = {
+    "a_base.f90": "module base\n  implicit none\n  type :: t\n    integer :: i\n  end type t\ncontains\n  subroutine init(x)\n    type(t) :: x\n  end subroutine init\nend module base\n",
+    "b_mid.f90": "module mid\n  implicit none\ncontains\n  subroutine work()\n    use base\n    type(t) :: v\n    call init(v)\n  end subroutine work\nend module mid\n",
+    "c_top.f90": "module top\n  use mid\n  implicit none\n  interface\n    module subroutine ms()\n    end subroutine ms\n  end interface\nend module top\n",
+    "d_sub.f90": "submodule (top) top_impl\ncontains\n  module subroutine ms()\n    use leaf, only: init\n    call init()\n  end subroutine ms\nend submodule top_impl\n",
+    "e_leaf.f90": "module leaf\ncontains\n  subroutine init()\n  end subroutine init\n  subroutine Work()\n  end subroutine Work\nend module leaf\n",
+    "f_main.f90": "program main\n  use top\n  call work()\n  call outer()\nend program main\n",
+    "g_ext.f90": "subroutine outer()\n  use leaf\n  call init()\nend subroutine outer\nfunction outerf() result(r)\n  integer :: r\n  r = 1\nend function outerf\n",
+    "h_bd.f90": "block data bd\n  integer :: k\n  common /blk/ k\nend block data bd\n",
+}
+
+
+def trace_job(job):
+    """One whole run recorded for Pipeline_Trace (runs in a pool worker)."""
+    from vlib import pipebind
+    name, files, meta = job
+    ok, events, log = pipebind.record(files, meta)
+    return {"name": name, "ok": ok, "events": events, "log": log}
+
+
+def pipeline_traces(ck, dev, cor, big, seed):
+    """Direction 2 of the umbrella spec: whole runs of the real ford.main are behaviours of Pipeline."""
+    from vlib import pipebind
+    from concurrent.futures import ThreadPoolExecutor
+    jobs = [("valid", dict(VALID), {}), ("layered", dict(LAYERED), {}), ("layered-private", dict(LAYERED), {"display": ["public", "private"], "proc_internals": True}),
+            ("layered+valid", dict(VALID, **LAYERED), {"incl_src": True})]
+    step = 3 if big else 9
+    for i in range(seed % step, len(cor), step):
+        label, data = cor[i]
+        pos = list(POSITIONS.values())[i % 3]
+        jobs.append((f"{label}@{pos}", dict(VALID, **{pos: data}), {}))
+        if i % 2 == 0:
+            jobs.append((f"layered+{label}", dict(LAYERED, **{"c_bad.f90": data}), {}))
+    ex_src = os.path.join(common.REPO, "example", "src")
+    if os.path.isdir(ex_src):
+        exfiles = {f: open(os.path.join(ex_src, f), "rb").read() for f in sorted(os.listdir(ex_src)) if os.path.isfile(os.path.join(ex_src, f))}
+        jobs.append(("repo-example", exfiles, {"predocmark": ">", "docmark_alt": "#", "predocmark_alt": "<", "display": ["public", "protected"],
+                                               "exclude": "src/excluded_file.f90", "extensions": ["f90", "fpp"], "fpp_extensions": []}))
+    recs = pool.pmap(trace_job, jobs, chunksize=1)
+    with ThreadPoolExecutor(max_workers=12) as ex:
+        verdicts = list(ex.map(lambda r: pipebind.validate(r["events"], dev), recs))
+    nev = 0
+    for r, v in zip(recs, verdicts):
+        nev += v["events"]
+        if v["accepted"]:
+            continue
+        detail = f"whole run '{r['name']}' is not a behaviour of Pipeline: event {v['consumed'] + 1} of {v['events']} ({v['next_event']}): {v['why']}"
+        if v["owner"] == "C20":
+            ck.violation("pipeline-trace", {"run": r["name"]}, observed=v["next_event"], detail=detail)
+        else:
+            raise tlc.TLCFailure(detail + " - not a C20 clause: the as-built stage model of spec/Pipeline.tla no longer describes the code"
+                                 + (f" (clause owned by {v['owner']})" if v["owner"] else ""))
+    # the trace spec binds: corrupted records of an accepted run are rejected
+    good = next((r for r, v in zip(recs, verdicts) if v["accepted"] and r["name"] == "layered"), None)
+    if good is None:
+        raise tlc.TLCFailure("Pipeline_Trace: the layered reference run was not accepted")
+    corrupted = []
+    for mode in range(6):
+        ev = json.loads(json.dumps(good["events"]))
+        idx = lambda kind: [i for i, e in enumerate(ev) if e["ev"] == kind]
+        if mode == 0:
+            a, b = idx("correlate")[:2]; ev[a], ev[b] = ev[b], ev[a]
+        elif mode == 1:
+            del ev[idx("page")[2]]
+        elif mode == 2:
+            [e for e in ev if e["ev"] == "name" and e["n"] == 2][0]["n"] = 1
+        elif mode == 3:
+            p_ = ev.pop(idx("page")[0]); ev.insert(idx("wipe")[0], p_)
+        elif mode == 4:
+            a, b = idx("parse")[:2]; ev[a], ev[b] = ev[b], ev[a]
+        else:
+            ev[idx("parse")[1]]["ok"] = False         # a file that failed, yet its units are correlated and its pages written
+        corrupted.append(ev)
+    with ThreadPoolExecutor(max_workers=6) as ex:
+        cv = list(ex.map(lambda e_: pipebind.validate(e_, dev), corrupted))
+    if any(v["accepted"] for v in cv):
+        raise tlc.TLCFailure(f"Pipeline_Trace accepted corrupted runs {[i for i, v in enumerate(cv) if v['accepted']]}: the trace spec does not bind")
+    if cv[5]["owner"] != "C20":
+        raise tlc.TLCFailure(f"Pipeline_Trace: a leaked failed file was attributed to {cv[5]['owner']}: {cv[5]['why']}")
+    ck.coverage["traces_validated_against_impl"] = len(verdicts)
+    ck.coverage["pipeline_events_checked"] = nev
+    ck.coverage["corrupted_traces_rejected"] = len(cv)
+    ck.coverage["pipeline_runs"] = [r["name"] for r in recs][:40]
+
+
 def known(tag, case, ck):
     if tag in ("registered-despite-error", "tree", "url") and case.get("reports_error_kind"):
         return ck.known_finding("C20-F1")
@@ -201,7 +286,7 @@ def run(tier, seed, ck: Check):
                 continue
             ck.violation(tag, {"label": c["label"], "pos": c["pos"], "data_hex": c["data"], "second": c.get("second")}, detail=f"{c['label']} ({c['pos']}): {detail}")
     ck.coverage["rejected_files"] = nrej
-    ck.coverage["traces_validated_against_impl"] = 0
+    pipeline_traces(ck, dev, cor, big, seed)
     ck.sample({"valid_files": sorted(VALID), "corruption": cases[3]["label"], "position": cases[3]["pos"],
                "corrupt_text": bytes.fromhex(cases[3]["data"]).decode(errors="replace")})
     ck.assumptions += [
